@@ -239,6 +239,17 @@ def repeat_cases(tier):
     return out
 
 
+def _own_fmt(d):
+    return "T" + d.strftime("%Y%m%d.%H%M%S")
+
+
+def _own_scale_export(backend, data):
+    from labella.scale import TimeScale
+    from labella.timeline import TimelineSVG, TimelineTex
+    cls = TimelineSVG if backend == "svg" else TimelineTex
+    return cls(copy.deepcopy(data), {"direction": "up", "scale": TimeScale(fmt=_own_fmt)}).export()
+
+
 def judge_repeat(st, en, backend, acc=None):
     from labella.scale import TimeScale
     from labella.timeline import TimelineSVG, TimelineTex
@@ -259,6 +270,22 @@ def judge_repeat(st, en, backend, acc=None):
         return "HANG", "three exports of one timeline over [%s, %s] did not return" % (st, en)
     except Exception as e:
         return "EXC:" + type(e).__name__, "three exports of one timeline over [%s, %s] raised %r" % (st, en, e)
+    # a second timeline over the same data whose options carry the caller's own scale (own tick format), exported after the
+    # ones above, against the same timeline exported alone in a purged, re-imported library
+    try:
+        with horizon(60.0):
+            own_after = _own_scale_export(backend, data)
+            purge_labella()
+            own_alone = _own_scale_export(backend, data)
+    except Hang:
+        return "HANG", "export of an own-scale timeline over [%s, %s] did not return" % (st, en)
+    except Exception as e:
+        return "EXC:" + type(e).__name__, "export of an own-scale timeline over [%s, %s] raised %r" % (st, en, e)
+    if acc is not None:
+        acc.counters["own_scale_after_default_scale_exports"] += 1
+    if own_after != own_alone:
+        return ("C10:export-differs", "data spanning [%s, %s] (%s): a timeline with the caller's own TimeScale(fmt=...) exported after "
+                "default-scale timelines over the same data differs from the same timeline exported alone" % (st, en, backend))
     for k, d in enumerate(docs):
         if d != ref:
             return ("C10:repeat-export-differs", "data spanning [%s, %s] (%s): export #%d of one timeline differs from the "
